@@ -53,7 +53,23 @@ def main(argv):
         print(f"no check registered for {prop}", file=sys.stderr)
         return 2
     mod = importlib.import_module(modname)
-    return mod.run(prop, tier, vseed)
+    try:
+        return mod.run(prop, tier, vseed)
+    except Exception:
+        # The exploration itself crashed: on a tree where the property holds this never happens (the
+        # checks are run on the unchanged tree before every commit); on a changed tree the implementation
+        # left the domain the harness relies on. Reported as a violation with the traceback as replay.
+        import traceback
+
+        from . import report
+
+        tb = traceback.format_exc()
+        print(tb, file=sys.stderr)
+        path = report.write_replay(prop, {"property": prop, "signature": f"site=exploration; class=crash; symptom=raises:{tb.strip().splitlines()[-1][:80]}",
+                                          "replay_module": "mc.crash", "history": [], "oracle": "exploration-completes", "expected": "no exception",
+                                          "actual": tb[-3000:], "command": f"./run {prop} {tier}"})
+        print(f"VIOLATION property={prop} replay={path}")
+        return 1
 
 
 if __name__ == "__main__":
